@@ -387,6 +387,23 @@ class ValueGen:
                 self.swept = True
                 op["sweep"] = True
                 op["probes"] = self.sweep_probes(op)
+                if op["k"].startswith("reg.AddCategory") and not getattr(self, "plan", None):
+                    # the category is in use when it is replaced: its quantities are interned in
+                    # the units the probes will ask for again
+                    c = op["a"][0]
+                    try:
+                        qt_now = _db_now().GetCategoryQuantityType(c)
+                    except Exception:
+                        qt_now = None
+                    bb = self.basis_for_qt(qt_now) if qt_now else None
+                    if bb is not None:
+                        warm = self.op("mk.Scalar.vuc", "Scalar", "()", [1.0, bb[1][0], c])
+                        warm["c"] = client
+                        op["c"] = client
+                        op["probes"] = [dict(self.op("mk.Scalar.vuc", "Scalar", "()", [1.0, bb[1][0], c], x=[{"o": "reject", "p": "C05", "id": "C05.loud", "why": "catunit", "category": c, "unit": bb[1][0]}]), c="inspector")] + op["probes"]
+                        self.plan = [op]
+                        self.plan_sticky = True
+                        op = warm
             elif (
                 op["k"] in ("reg.AddCategory.override", "reg.AddCategory.retype", "reg.AddUnit.new", "reg.AddCategory.new", "reg.AddCategory.copy")
                 and self.cfg.get("intr_reg_rate", 0) > 0
